@@ -45,8 +45,10 @@ CLAIMED = {
                 text="Theorems C05_unsubscribe_closes / C05_unsubscribe_freezes / C05_nothing_after_unsubscribe: on the sequential machine, for every pipeline over the whole catalogue, every scenario, "
                      "every pending-request stack and every fuel, once a subscriber's observer has lost its slots (Observer::unsubscribe does so in its first step) nothing is ever added to its log again and it stays "
                      "closed; C05_unsubscribe_idempotent / C05_closed_delivery_noop: later calls are no-ops; C05_concurrent_nothing_after_unsubscribe_returned: with any number of threads under any interleaving no "
-                     "callback starts for a call begun after unsubscribe returned. Partial: that is_subscribed is true until the first terminal/unsubscribe is judged by the oracle on implementation snapshots after "
-                     "every driver action, not by a theorem. Tie: unsubscribe at every position (driver, from inside a callback, repeated, after terminals) over hot, cold and hand-driven sources; emitter threads racing an "
+                     "callback starts for a call begun after unsubscribe returned. C05_subscribed_until_terminal_or_unsubscribe: for every pipeline, world, stack and fuel a subscriber's observer that is subscribed at one point of a run and not at a later one "
+                     "has in between been the target of Observer::unsubscribe or received a terminal (no other step touches the slots of an existing observer); C05_unsubscribe_requests_come_from_partial: such a request comes "
+                     "only from Subscription::unsubscribe on a live subscription of it or from its StreamController. Partial: that a controller's finalize() reaches its subscriber only after a terminal is an "
+                     "operator-by-operator fact judged by the oracle on implementation snapshots after every driver action, not by a theorem. Tie: unsubscribe at every position (driver, from inside a callback, repeated, after terminals) over hot, cold and hand-driven sources; emitter threads racing an "
                      "unsubscribing thread under the scheduling runtime."),
     "C06": dict(engine="coq-seq", design="DESIGN.md 6 C06",
                 technique="machine-checked proof in Coq (static discipline of every handler of the catalogue by case analysis; soundness of the discipline for the controller bookkeeping by induction over nested action lists) + differential correspondence with probe sources and subject observer counts",
